@@ -206,6 +206,9 @@ func (eng *Engine) inventoryNondet() []*Obligation {
 					short = strings.ReplaceAll(callee.RelString(nil), path, callee.Pkg.Pkg.Name())
 				}
 				_ = name
+				if callee.Name() == "init" {
+					continue // package initialisation order is fixed by the language
+				}
 				if nondetPkgs[path] || nondetFuncs[short] {
 					flag(short, ins)
 				}
